@@ -67,6 +67,11 @@ CLAIMED["C14"] = ("exploration",
    "Objects are planted from the host through /proc/<init>/root (the same objects a program could create). For a mode-000 regular file and for CREAT|EXCL on an existing file either outcome is accepted, but a returned descriptor must still be the right file.",
    "property-based testing (rapid) with a sequential per-item model", "§3 C14")
 
+CLAIMED["C13"] = ("exploration",
+   "Reset: containers with 1..3 tmpfs mounts (one nested), with/without a credential generator; 1..3 generated programs create files, mode-000 directories with content, dot-names, hostile names, symlinks (dangling, to /, /usr, ..), FIFOs, sockets, cross-directory hard links, chains of 80-character names up to depth 60 (> PATH_MAX), up to 2000 files in one directory, files held open by a daemon; after Reset returns nil every tmpfs must be empty seen from the host through /proc/<init>/root and from a later program. Memfd: DupToMemfd over sizes 0..8 MiB around page boundaries from five reader kinds (incl. failing ones): exact content, offset 0, all four seals, every modification attempt fails, also after a sandboxed program was run from the descriptor and attacked /proc/self/exe and the inherited descriptor; failing readers give an error and leak nothing.",
+   "A Reset that returns an error is counted, not judged. Writable bind mounts are not part of Reset's contract (doc.go: tmpfs work/tmp directories).",
+   "property-based testing (rapid): generated programs + host/later-program observation; round-trip and immutability oracle for memfd", "§3 C13")
+
 NOT_YET = {}
 
 def main():
